@@ -345,15 +345,36 @@ class Impl:
         self.pool = {}
 
     def run(self, ops):
+        import signal
+
+        def _too_long(signum, frame):
+            raise TimeoutError("one call of the code under test took longer than 180 s")
         out = []
         for op in ops:
+            try:
+                old = signal.signal(signal.SIGALRM, _too_long)
+                signal.alarm(180)
+            except Exception:  # noqa: BLE001 -- not in the main thread
+                old = None
+            try:
+                r = self._run_one(op)
+            finally:
+                if old is not None:
+                    signal.alarm(0)
+                    signal.signal(signal.SIGALRM, old)
+            out.append(r)
+        return out
+
+    def _run_one(self, op):
+        out = []
+        for op in [op]:
             try:
                 r = self.step(op)
                 # observe now: a returned structure may alias internal state that later ops change
                 out.append({"ok": copy.deepcopy(r)})
             except Exception as e:  # noqa: BLE001
                 out.append({"err": type(e).__name__, "msg": str(e)[:200]})
-        return out
+        return out[0]
 
     # helpers
     def g(self, k):
